@@ -175,6 +175,7 @@ func (p *Parser) Next() (GrammarType, []byte) {
 		p.state[len(p.state)-1] = ObjectValueState
 		return StringGrammar, p.r.Shift()[:n]
 	} else {
+		needComma := p.needComma
 		p.needComma = true
 		if state == ObjectValueState {
 			p.state[len(p.state)-1] = ObjectKeyState
@@ -191,6 +192,9 @@ func (p *Parser) Next() (GrammarType, []byte) {
 			p.err = parse.NewErrorLexer(p.r, "unexpected NULL character")
 			return ErrorGrammar, nil
 		} else if c == 0 { // EOF
+			// leave the state as it was so that the end is reported again by the next call
+			p.needComma = needComma
+			p.state[len(p.state)-1] = state
 			return ErrorGrammar, nil
 		}
 	}
